@@ -42,7 +42,7 @@ class _B:
         r = self.r
         o = {}
         if 'mutex' in self.fams or 'cv' in self.fams:
-            nm = r.randint(1, 2)
+            nm = 1 if r.chance(0.6) else 2
             o['mutex'] = [['m%d' % i, 1 if r.chance(0.12) else 0] for i in range(nm)]
         if 'sem' in self.fams:
             o['sem'] = [['s0', r.choice([0, 1, 1, 2])]]
@@ -51,9 +51,31 @@ class _B:
         if 'barrier' in self.fams:
             o['bar'] = [['b0', max(2, self.nact - (1 if r.chance(0.3) else 0) + (1 if r.chance(0.1) else 0))]]
         if 'mbox' in self.fams:
-            o['mbox'] = ['mb%d' % i for i in range(r.randint(1, 2))]
+            o['mbox'] = ['mb%d' % i for i in range(1 if r.chance(0.65) else 2)]
         self.objects = o
         return o
+
+    def inner(self, ai, held):
+        """one observable operation executed inside a critical section: the order of the critical sections then shows
+        in the outcome"""
+        r = self.r
+        o = self.objects
+        cand = []
+        if 'mbox' in o:
+            cand += [['put', r.choice(o['mbox']), 1.0], ['iprobe', r.choice(o['mbox']), r.choice(['send', 'recv'])]]
+        others = [m[0] for m in o.get('mutex', []) if m[0] != held]
+        if others:
+            cand.append(['trylock', r.choice(others)])
+        if 'sem' in o:
+            cand.append(['acquire_timeout', 's0', 1.0])
+        if 'cv' in o:
+            cand.append(['notify_one', 'c0'])
+        if not cand or r.chance(0.2):
+            cand.append(['mc_random', 0, 1])
+        op = r.choice(cand)
+        if op[0] == 'trylock':
+            return [op, ['unlock', op[1]]]
+        return [op]
 
     # ---- blocks: lists of ops; assertion candidates are marked afterwards
     def block(self, fam, ai):
@@ -63,15 +85,18 @@ class _B:
         if fam == 'mutex':
             ms = [m[0] for m in o['mutex']]
             c = r.below(10)
-            if c < 5 or len(ms) == 1 and c < 7:
+            if c < 3:
                 m = r.choice(ms)
-                ops += [['lock', m], ['unlock', m]]
-            elif c < 7:
+                ops += [['lock', m]] + self.inner(ai, m) + [['unlock', m]]
+            elif c < 5 and len(ms) > 1:
                 a, b = (ms[0], ms[1]) if r.chance(0.6) else (ms[1], ms[0])
                 ops += [['lock', a], ['lock', b], ['unlock', b], ['unlock', a]]
+            elif c < 8:
+                m = r.choice(ms)
+                ops += [['trylock', m]] + (self.inner(ai, m) if r.chance(0.3) else []) + [['unlock', m]]
             else:
                 m = r.choice(ms)
-                ops += [['trylock', m], ['unlock', m]]
+                ops += [['lock', m], ['unlock', m]]
         elif fam == 'sem':
             c = r.below(10)
             if c < 4:
@@ -85,7 +110,7 @@ class _B:
         elif fam == 'cv':
             m = o['mutex'][0][0]
             if r.chance(0.5):
-                ops += [['lock', m], ['cvwait', 'c0', m] if r.chance(0.6) else ['cvwait_for', 'c0', m, 1.0], ['unlock', m]]
+                ops += [['lock', m], ['cvwait', 'c0', m] if r.chance(0.3) else ['cvwait_for', 'c0', m, 1.0], ['unlock', m]]
             else:
                 n = ['notify_one', 'c0'] if r.chance(0.6) else ['notify_all', 'c0']
                 ops += ([['lock', m], n, ['unlock', m]] if r.chance(0.5) else [n])
@@ -107,15 +132,14 @@ class _B:
             elif c < 16:
                 s1, s2 = self.slot(), self.slot()
                 mb2 = r.choice(o['mbox'])
-                ops += [['get_async', s1, mb], ['get_async', s2, mb2], ['wait_any', s1, s2]]
+                # both receives are waited for in the end: what happens to a pending asynchronous communication when its
+                # actor terminates differs between the checker's mode and a native run (proposed finding), keep away
+                ops += [['get_async', s1, mb], ['get_async', s2, mb2], ['wait_any', s1, s2], ['wait', s1], ['wait', s2]]
             elif c < 17:
                 s1 = self.slot()
                 ops += [['get_async', s1, mb], ['test_any', s1], ['wait', s1]]
-            elif c < 19:
-                ops += [['iprobe', mb, r.choice(['send', 'recv'])]]
             else:
-                s = self.slot()
-                ops += [['put_async', s, mb, 1.0]]  # never waited: cancelled when the actor ends
+                ops += [['iprobe', mb, r.choice(['send', 'recv'])]]
         elif fam == 'actor':
             c = r.below(10)
             if c < 4 and len(self.templates) < 1:
@@ -134,6 +158,60 @@ class _B:
         elif fam == 'random':
             ops += [['mc_random', 0, r.randint(1, 2)]]
         return ops
+
+
+def _balance(plan, r, nact):
+    """most programs should be able to terminate: make the resources match the demand (seeded exceptions keep the
+    classical deadlocks: short barrier, semaphore short of tokens, unmatched receive or send)"""
+    o = plan['objects']
+    acts = [a for a in plan['actors']]
+    if 'bar' in o:
+        per = [sum(1 for op in a['ops'] if op[0] == 'barrier') for a in acts]
+        users = [n for n in per if n]
+        if users and r.chance(0.8):
+            # same number of rounds for every participant, count = number of participants
+            rounds = min(users)
+            for a in acts:
+                seen = 0
+                new = []
+                for op in a['ops']:
+                    if op[0] == 'barrier':
+                        seen += 1
+                        if seen > rounds:
+                            continue
+                    new.append(op)
+                a['ops'] = new
+            o['bar'][0][1] = max(1, len(users))
+    if 'sem' in o and r.chance(0.8):
+        need = 0
+        for a in acts:
+            held = 0
+            for op in a['ops']:
+                if op[0] == 'acquire':
+                    held += 1
+                elif op[0] == 'release':
+                    held -= 1
+            need += max(0, held)
+        o['sem'][0][1] = max(o['sem'][0][1], need)
+    if 'mbox' in o and r.chance(0.75):
+        for mb in o['mbox']:
+            nput = sum(1 for a in acts for op in a['ops'] if (op[0] == 'put' and op[1] == mb) or
+                       (op[0] == 'put_async' and op[2] == mb))
+            nget = sum(1 for a in acts for op in a['ops'] if (op[0] == 'get' and op[1] == mb) or
+                       (op[0] == 'get_async' and op[2] == mb))
+            guard = 0
+            while nput != nget and guard < 4:
+                guard += 1
+                a = r.choice(acts)
+                if len(a['ops']) >= 8:
+                    continue
+                if nput < nget:
+                    a['ops'].append(['put', mb, 1.0])
+                    nput += 1
+                else:
+                    a['ops'].append(['get', mb])
+                    nget += 1
+    return plan
 
 
 ASSERTABLE = {'trylock': ('ok', ['1', '0']), 'acquire_timeout': ('timeout', ['0', '1']),
@@ -181,11 +259,11 @@ def _insert_assertions(plan, r, p_assert):
     return plan
 
 
-def program(r, seed, max_bound, want_assert=None, families=None, min_bound=2):
+def program(r, seed, max_bound, want_assert=None, families=None, min_bound=2, balance=True):
     """-> plan (without walks / mc configs). Rejection sampling on the size bound, deterministic in r."""
     best = None
     for attempt in range(40):
-        nact = r.wchoice([(2, 5), (3, 4), (4, 1)])
+        nact = r.wchoice([(2, 4), (3, 5), (4, 1)])
         fams = families or r.sample(FAMILIES, r.randint(1, 3))
         b = _B(r, fams, nact)
         plan = gen.base_plan(seed, nhosts=1, rng=r, factory=r.choice(['raw', 'raw', 'boost']))
@@ -204,6 +282,8 @@ def program(r, seed, max_bound, want_assert=None, families=None, min_bound=2):
             acts.append(dict(id=t, host='h0', template=True, ops=ops[:4]))
         plan['actors'] = acts
         plan['families'] = sorted(fams)
+        if balance:
+            _balance(plan, r, nact)
         wa = r.chance(0.4) if want_assert is None else want_assert
         if wa:
             _insert_assertions(plan, r, 0.6)
@@ -237,10 +317,13 @@ def walk_specs(r, n):
 
 
 def shrink(plan):
-    """smaller candidate programs: fewer actors / ops, fewer walks, fewer checker configurations"""
-    for p in gen.shrink_plan(plan):
-        yield p
+    """smaller candidates, cheapest evaluations first: fewer checker configurations, fewer walks, then a smaller
+    program (fewer actors / ops)"""
     if len(plan.get('mc', [])) > 1:
+        for i in range(len(plan['mc'])):
+            p = copy.deepcopy(plan)
+            p['mc'] = [plan['mc'][i]]
+            yield p
         for i in range(len(plan['mc'])):
             p = copy.deepcopy(plan)
             del p['mc'][i]
@@ -248,4 +331,7 @@ def shrink(plan):
     if len(plan.get('walks', [])) > 4:
         p = copy.deepcopy(plan)
         p['walks'] = p['walks'][:len(p['walks']) // 2]
+        yield p
+    for p in gen.shrink_plan(plan):
+        p['bound'], p['ntransitions'] = mcd.interleavings_bound(p)
         yield p
